@@ -41,6 +41,7 @@ INFO = os.path.join(VERIF, "build", "locks_ir.json")
 FILES = ["rtrlib/pfx/trie/trie.c", "rtrlib/pfx/trie/trie-pfx.c", "rtrlib/spki/hashtable/ht-spkitable.c"]
 RELOAD_FILE = "rtrlib/rtr/packets.c"
 RELOAD_FN = "rtr_sync_receive_and_store_pdus"
+NAMESPACE = "Rtr.Generated.Locks"
 
 TABLE_RE = re.compile(r"^(const )?struct (pfx_table|spki_table) \*( const)?$")
 PARTS = ["ipv4", "ipv6", "nodes", "hashtable", "list", "entries"]
@@ -1163,7 +1164,7 @@ def emit_lean(ctx, rcalls):
     L.append("-/")
     L.append("import RtrModel.Locks")
     L.append("")
-    L.append("namespace Rtr.Generated.Locks")
+    L.append("namespace " + NAMESPACE)
     L.append("open Rtr.Locks")
     L.append("")
     for n in ctx.ir_fns:
@@ -1281,33 +1282,46 @@ def emit_lean(ctx, rcalls):
         L.append("  (\"%s\", [%s])%s  -- line %d" % (nm, ", ".join('"%s"' % c for c in cls), "," if i < len(rc) - 1 else "", line))
     L.append("]")
     L.append("")
-    L.append("end Rtr.Generated.Locks")
+    L.append("end " + NAMESPACE)
     return "\n".join(L) + "\n"
 
 
-def main():
-    ctx = extract()
-    rcalls = reload_calls()
-    text = emit_lean(ctx, rcalls)
-    os.makedirs(os.path.dirname(OUT), exist_ok=True)
-    old = open(OUT).read() if os.path.exists(OUT) else None
+def generate(repo, out_path, namespace="Rtr.Generated.Locks", info_path=None):
+    """translate the tree at `repo`, write the Lean module to `out_path` (only when its content changes)"""
+    global REPO, NAMESPACE
+    saved = (REPO, NAMESPACE)
+    REPO, NAMESPACE = repo, namespace
+    try:
+        ctx = extract()
+        rcalls = reload_calls()
+        text = emit_lean(ctx, rcalls)
+    finally:
+        REPO, NAMESPACE = saved
+    os.makedirs(os.path.dirname(out_path), exist_ok=True)
+    old = open(out_path).read() if os.path.exists(out_path) else None
     changed = old != text
     if changed:
-        with open(OUT + ".tmp", "w") as f:
+        with open(out_path + ".tmp", "w") as f:
             f.write(text)
-        os.rename(OUT + ".tmp", OUT)
+        os.rename(out_path + ".tmp", out_path)
+    public = [n for n in ctx.ir_fns if n not in ctx.static and n not in ctx.lifecycle]
     info = {
-        "fns": ctx.ir_fns, "tables": ctx.fn_tables, "cbparams": ctx.fn_cbparams, "files": ctx.file,
+        "fns": ctx.ir_fns, "public": public, "tables": ctx.fn_tables, "cbparams": ctx.fn_cbparams, "files": ctx.file,
         "lines": {n: line_of(ctx.defs[n]) for n in ctx.ir_fns},
         "lifecycle": sorted(ctx.lifecycle), "static": sorted(n for n in ctx.ir_fns if n in ctx.static),
         "helpers": {n: {"acc": sorted([k, list(map(str, l))] for k, l in s.acc), "cbs": sorted(s.cbs),
                         "unknown": sorted(s.unknown)} for n, s in ctx.summaries.items()},
-        "reloadCalls": rcalls, "changed": changed, "repo": REPO,
+        "reloadCalls": rcalls, "changed": changed, "repo": repo,
     }
-    os.makedirs(os.path.dirname(INFO), exist_ok=True)
-    with open(INFO, "w") as f:
-        json.dump(info, f, indent=1)
+    if info_path:
+        os.makedirs(os.path.dirname(info_path), exist_ok=True)
+        with open(info_path, "w") as f:
+            json.dump(info, f, indent=1)
     return info
+
+
+def main():
+    return generate(REPO, OUT, "Rtr.Generated.Locks", INFO)
 
 
 if __name__ == "__main__":
